@@ -1,6 +1,7 @@
 // Shared pieces of the geodesic harnesses (C01, C02, C03, C12, C08, C17): ellipsoid ladders,
 // documented-accuracy tolerance model, cached solver objects, start/azimuth/length generators.
 #pragma once
+#include "harness/value_semantics.hpp"
 #include <GeographicLib/Geodesic.hpp>
 #include <GeographicLib/GeodesicExact.hpp>
 #include <GeographicLib/GeodesicLine.hpp>
@@ -56,9 +57,13 @@ struct Solvers {
     b = a * (1 - f); qm = quarter_meridian(a, f);
     tol_series = doc_series(f) * a / WGS84_A;
     tol_exact = doc_exact(b / a) * qm / 1e7;
-    if (want_series) series.reset(new GeographicLib::Geodesic(a, f));
-    exact.reset(new GeographicLib::GeodesicExact(a, f));
-    delegating.reset(new GeographicLib::Geodesic(a, f, true));
+    // every solver the harnesses use is a detached COPY (harness/value_semantics.hpp): the object it was copied from is overwritten
+    // by a solver for another ellipsoid and destroyed before the first call
+    using GeographicLib::Geodesic; using GeographicLib::GeodesicExact;
+    const double a2 = a * 1.25, f2 = f > 0.5 ? 0.01 : 0.25;
+    if (want_series) series.reset(vh::detached_new<Geodesic>([&] { return Geodesic(a, f); }, [&] { return Geodesic(a2, 0.015); }));
+    exact.reset(vh::detached_new<GeodesicExact>([&] { return GeodesicExact(a, f); }, [&] { return GeodesicExact(a2, f2); }));
+    delegating.reset(vh::detached_new<Geodesic>([&] { return Geodesic(a, f, true); }, [&] { return Geodesic(a2, f2, true); }));
   }
 };
 inline Solvers& solvers(double a, double f, bool want_series) {
